@@ -126,7 +126,7 @@ func (p *Pollard) getNode(pos uint64) (n, sibling, parent *polNode, err error) {
 	// Tree is the root the position is located under.
 	// branchLen denotes how far down the root the position is.
 	// bits tell us if we should go down to the left child or the right child.
-	if pos >= maxPosition(TreeRows(p.NumLeaves)) {
+	if !inForest(pos, p.NumLeaves, TreeRows(p.NumLeaves)) {
 		return nil, nil, nil,
 			fmt.Errorf("Position %d does not exist in tree of %d leaves", pos, p.NumLeaves)
 	}
